@@ -181,10 +181,22 @@ def rand_input_arg(rng, big=False):
     return '+'.join(comps) if comps else '-'
 
 
+def literal_boundary_args(rng):
+    """inputs whose (final) literal has a length at the boundaries of the three literal-length forms of the format
+    (n-1 < 60: in the tag; < 2^8: one extra byte; < 2^16: two extra bytes), alone and behind a compressible prefix"""
+    out = []
+    for L in (1, 59, 60, 61, 62, 255, 256, 257, 258, 259, 65535, 65536, 65537):
+        out.append('@%d~%d' % (rng.below(1 << 30), L))
+        out.append('%%%d~%d~%d+@%d~%d' % (rng.below(1 << 30), rng.range(300, 900), rng.range(3, 17), rng.below(1 << 30), L))
+        out.append('=%02x~%d+@%d~%d' % (rng.below(256), rng.range(40, 400), rng.below(1 << 30), L))
+    return out
+
+
 def gen_snappy_enc(rng, n, big=False):
     cases = []
-    for i in range(n):
-        arg = rand_input_arg(rng, big)
+    fixed = literal_boundary_args(rng)
+    for i in range(n + len(fixed)):
+        arg = fixed[i] if i < len(fixed) else rand_input_arg(rng, big)
         x = proto.parse_bytes(arg)
         want = 'ok ' + proto.show_bytes(x)
 
